@@ -8,7 +8,7 @@ def get(modname, clsname, params, pts, t):
     cls = getattr(importlib.import_module(modname), clsname)
     s = cls(**params)
     sol = s(np.array(pts, dtype=float), t)
-    return {n: np.asarray(sol[n], dtype=float) for n in sol.dtype.names}
+    return {n: np.asarray(sol[n], dtype=float) for n in sol.dtype.names if sol.dtype[n].kind in 'fiu'}
 def main(payload):
     out = []
     for c in payload:
